@@ -11,7 +11,8 @@ import (
 )
 
 // tracer is a context.Context whose Done() is polled by mainLoopWithContext once per instruction,
-// right after the fetch: it records the (prototype, pc) about to be executed and, per call-stack
+// right after the fetch (and, since ac1d613, also after a Go function called from Go code returns:
+// those polls are recognised and skipped, see Done): it records the (prototype, pc) about to be executed and, per call-stack
 // depth, the transition from the previously executed pc of the same activation. It also enforces
 // an instruction budget (Err() becomes non-nil), so generated programs cannot hang the harness.
 type tracer struct {
@@ -88,6 +89,13 @@ func (t *tracer) Done() <-chan struct{} {
 	}
 	id, known := t.ids[proto]
 	prev := t.last[depth]
+	if known && prev.valid && prev.id == id && prev.pc == pc && dOp(t.flat[id].Code[pc]) != opJMP {
+		// not an instruction fetch: since /repo ac1d613 the context is also polled when a Go function
+		// entered from Go code (the iterator of TFORLOOP through callR, a metamethod, a library
+		// callback) returns, while the Lua frame below is still inside the same instruction. A genuine
+		// pc -> pc transition exists only for a JMP onto itself.
+		return nil
+	}
 	if known && prev.valid && prev.id == id {
 		prevop := dOp(t.flat[id].Code[prev.pc])
 		if pc == 0 && mayEndActivation(prevop) {
